@@ -98,8 +98,25 @@ def bootstrap():
     return tapescript
 
 
+BUILDER_PROXY = False      # set by the worker for checks with BUILDER_DEFAULTS
+_proxy = None
+
+
+def real_tools():
+    bootstrap()
+    from tapescript import tools
+    return tools
+
+
 def mods():
-    """(functions, parsing, tools, classes, errors) of the live package."""
+    """(functions, parsing, tools, classes, errors) of the live package; for
+    checks that opt in, `tools` is the builder-default monitor's proxy."""
+    global _proxy
     bootstrap()
     from tapescript import functions, parsing, tools, classes, errors
+    if BUILDER_PROXY:
+        if _proxy is None:
+            from . import omit
+            _proxy = omit.ToolsProxy(tools)
+        return functions, parsing, _proxy, classes, errors
     return functions, parsing, tools, classes, errors
